@@ -45,6 +45,8 @@ func RunDaemon(t *testing.T, sc *DaemonScenario, dump io.Writer) (res RunResult)
 		synctest.Test(t, func(t *testing.T) {
 			e := &daemonEngine{sc: sc, rec: rec, dir: dir}
 			e.w = NewWorld(sc.Seed, rec, sc.Net)
+			e.w.BodyBlind, bodyBlind = true, true
+			defer func() { bodyBlind = false }()
 			e.keepIO = sc.Prop == "C15"
 			InstallYields(sc.Yield, rec)
 			defer UninstallYields()
@@ -93,7 +95,7 @@ func (e *daemonEngine) body(res *RunResult) {
 	synctest.Wait()
 	for _, id := range e.beaconIDs() {
 		cc := e.chains[id]
-		ep := e.collectEpoch(id, first, 1)
+		ep := e.collectEpoch(id, first, 1, nil)
 		cc.epochs = append(cc.epochs, ep)
 		if ep.group == nil || ep.master == nil || len(ep.complete) < sc.T {
 			e.rec.Violate("C06", "initial-dkg-did-not-complete", "liveness", "beacon %s: %d of %d nodes completed the first DKG (threshold %d) in a fault-free network", id, len(ep.complete), sc.N, sc.T)
@@ -236,12 +238,17 @@ func (e *daemonEngine) reshare(id string, p *ResharePlan) {
 		// execution starts, then more than n-t of the new group are cut off until it has failed
 		_ = e.cmd(leader, id, &pdkg.DKGCommand{Command: &pdkg.DKGCommand_Execute{Execute: &pdkg.ExecutionOptions{}}})
 		var cut, rest []string
-		for k, i := range members {
-			if k < len(members)-p.NewT+1 && e.nodes[i] != leader {
+		need := len(members) - p.NewT + 1
+		for k := len(members) - 1; k >= 0; k-- {
+			i := members[k]
+			if len(cut) < need && e.nodes[i] != leader {
 				cut = append(cut, e.nodes[i].addr)
 			} else {
 				rest = append(rest, e.nodes[i].addr)
 			}
+		}
+		for _, i := range p.Leave {
+			rest = append(rest, e.nodes[i].addr)
 		}
 		time.Sleep(time.Duration(e.sc.KickoffS)*time.Second - 100*time.Millisecond)
 		e.w.Partition(cut, rest)
@@ -271,7 +278,7 @@ func (e *daemonEngine) reshare(id string, p *ResharePlan) {
 		e.rec.Count("probe:failed_reshare_checked", 1)
 		return
 	}
-	ep := e.collectEpoch(id, members, old.n+1)
+	ep := e.collectEpoch(id, members, old.n+1, old.group)
 	if ep.group == nil || ep.master == nil {
 		e.rec.Count("probe:reshare_incomplete", 1)
 		e.rec.Ev("reshare_incomplete", "", "completers=%d", len(ep.complete))
@@ -612,7 +619,7 @@ func (e *daemonEngine) finalChecks(healAt time.Time, res *RunResult) {
 	type held struct{ sig, prev []byte }
 	all := map[uint64]map[string]held{}
 	heads := map[int]uint64{}
-	live := 0
+	live, holders := 0, 0 // holders: live members that hold the producing epoch's group and share
 	for _, i := range members {
 		n := e.nodes[i]
 		bp := e.bp(n, id)
@@ -624,6 +631,9 @@ func (e *daemonEngine) finalChecks(healAt time.Time, res *RunResult) {
 			continue
 		}
 		live++
+		if g := bp.VerifGroup(); g != nil && groupDiff(cur.group, g) == "" {
+			holders++
+		}
 		ctx := context.Background()
 		if cc.sch.Name == crypto.DefaultSchemeID {
 			ctx = chain.SetPreviousRequiredOnContext(ctx)
@@ -683,7 +693,12 @@ func (e *daemonEngine) finalChecks(healAt time.Time, res *RunResult) {
 	if len(heads) == 0 {
 		minHead = 0
 	}
-	if live >= cur.group.Threshold && time.Since(healAt) >= bound {
+	if holders < cur.group.Threshold && live >= cur.group.Threshold {
+		// a key generation that completed on some members only (messages lost beyond the
+		// protocol's retries) leaves fewer than a threshold on one share set: outside the statement
+		e.rec.Count("probe:halted_by_partially_completed_reshare", 1)
+	}
+	if holders >= cur.group.Threshold && time.Since(healAt) >= bound {
 		prop := "C05"
 		if len(sc.Reshares) > 0 {
 			prop = "C07"
